@@ -369,6 +369,24 @@ def rt_support_text_odd(req):
                 b = _try(lambda: dict(support.bind_callsig(sig[1], call[0], call[1])))
                 if r != ('ok', want) or b != ('ok', want):
                     problems.append('bracket-in-string: f(%r, %s)(*%r) -> %s, bind_callsig -> %s, expected %s' % (text, opts, call[0], r, b, want))
+    with warnings.catch_warnings():
+        warnings.simplefilter('ignore')
+        from sigtools import modifiers
+        for text, ret in (('self: 1, b: 2=3', None), ('self: 1', 7), ('a, self: 4', None), ('args: 1, kwargs: 2', None)):
+            for opts in ({'use_modifiers_annotate': True}, {'use_modifiers_annotate': True, 'use_modifiers_kwoargs': True}):
+                want = _try(lambda: str(support.s(text, *(() if ret is None else (ret,)))))
+                got = _try(lambda: str(support.s(text, *(() if ret is None else (ret,)), **opts)))
+                if got != want:
+                    problems.append('annotate-receiver-name: s(%r, %s) -> %s, the native spelling gives %s' % (text, opts, got, want))
+
+        def mk():
+            class K:
+                @modifiers.annotate(int, self=str, a=float)
+                def m(self, a): pass
+            return K
+        r = _try(lambda: (lambda K: (str(inspect.signature(K.m)), str(inspect.signature(K().m))))(mk()))
+        if r != ('ok', ('(self: str, a: float) -> int', '(a: float) -> int')):
+            problems.append('annotate-receiver-name: annotate(int, self=str, a=float) on a method -> %s' % (r,))
     return ('ok', tuple(problems[:5]), 'support_text_odd')
 
 
